@@ -895,8 +895,15 @@ func (d *engineData) extractScalars() {
 	}
 	rls := getFunc(engF, "rateLimitScanner", "Scan")
 	s := recvOf(rls).name
-	d.scalars["rateLimitWraps"] = wraps && sameScanner && len(rls.Body.List) == 2 && src(rls.Body.List[0]) == s+".limiter.Take()" &&
-		src(rls.Body.List[1]) == "return "+s+".Scanner.Scan("+paramAt(rls.Type, 0).name+", "+paramAt(rls.Type, 1).name+")"
+	// `Take()` as a statement, or made in a goroutine and awaited against ctx.Done() (limiter.go: interruptibleTake)
+	body := rls.Body.List
+	takeFirst := len(body) == 2 && src(body[0]) == s+".limiter.Take()"
+	if callee, ok := interruptibleTake(body, []string{paramAt(rls.Type, 0).name, paramAt(rls.Type, 1).name}); ok && len(body) == 4 {
+		takeFirst = strings.Join(callee, ".") == s+".limiter.Take"
+		body = body[2:]
+	}
+	d.scalars["rateLimitWraps"] = wraps && sameScanner && takeFirst && len(body) == 2 &&
+		src(body[1]) == "return "+s+".Scanner.Scan("+paramAt(rls.Type, 0).name+", "+paramAt(rls.Type, 1).name+")"
 }
 
 // ---------------------------------------------------------------- output
@@ -952,7 +959,7 @@ func (d *engineData) emit() {
 		"exitDelayConfig":  "`newEngineConfig` starts from `exitDelay: defaultExitDelay` and `withExitDelay` assigns `c.exitDelay`",
 		"workersValidated": "`parseRawOptions` of the generic options refuses `workers <= 0`",
 		"workerCountWired": "`newScanEngine` passes `scan.WithScanWorkerCount(o.workers)`, the option assigns `s.workerCount`, and `Start` loops `for i := 1; i <= e.workerCount; i++`",
-		"rateLimitWraps":   "`newScanEngine` wraps the scanner in `NewRateLimitScanner` iff `o.rateCount > 0`; `rateLimitScanner.Scan` is `Take()` then the delegate's `Scan`",
+		"rateLimitWraps":   "`newScanEngine` wraps the scanner in `NewRateLimitScanner` iff `o.rateCount > 0`; `rateLimitScanner.Scan` is `Take()` (possibly awaited against ctx.Done()) then the delegate's `Scan`",
 		"workerBodyShape":  "worker body has the recognised shape: one `Scan` per ok request, `writeError`+`continue` on `r.Err != nil` and on a scan error, `Put` iff `result != nil`",
 	}
 	for _, n := range engineScalars {
